@@ -84,6 +84,10 @@ def _run_map(ctx, spec, rng):
     r = int(rng.integers(1, din * dout + 1)) if rng.random() < 0.7 else int(rng.integers(1, 4))
     cls = ["cp", "cp", "hp", "gen", "near"][int(rng.integers(0, 5))] if spec[1] % 9 != 8 else "near"
     cplx = bool(rng.integers(0, 2))
+    if spec[1] % 13 == 6:
+        # long operator lists (more operators than d_in * d_out: an overcomplete but perfectly valid Kraus family, e.g. the 36 Heisenberg-Weyl
+        # unitaries of a six-level depolarizing channel): lengths around and beyond powers of two, not multiples of any block size
+        r = [33, 36, 40, 65, 70, 100, 129][(spec[1] // 13) % 7]
     a_ops, b_ops = _make_map(rng, din, dout, r, cls, cplx)
     if spec[1] % 7 == 4 and len(a_ops) >= 1:
         # an operator pair listed twice (each copy scaled by 1/sqrt 2): the same map, written with a repeated entry
@@ -103,7 +107,7 @@ def _run_map(ctx, spec, rng):
     want = ref.apply_kraus(x, a_ops, b_ops)
     j_ref = ref.choi_of(a_ops, b_ops, din)
     nt = din != dout or cplx or cls != "cp"
-    rk = "1" if r == 1 else ("full" if r >= din * dout else "mid")
+    rk = "1" if r == 1 else ("long" if r > 32 else ("full" if r >= din * dout else "mid"))
     forms = {}
     if cls == "cp":
         forms["flat"] = list(a_ops)
@@ -241,6 +245,8 @@ def _run_partial(ctx, spec, rng):
     square_only = rng.random() < 0.5
     dout = din if square_only else int(rng.integers(1, 4))
     r = int(rng.integers(1, 4))
+    if spec[1] % 11 == 7:
+        r = [34, 47, 66, 97][(spec[1] // 11) % 4]  # long operator lists (see _run_map)
     cls = ["cp", "cp", "gen", "near"][int(rng.integers(0, 4))]
     cplx = bool(rng.integers(0, 2))
     a_ops, b_ops = _make_map(rng, din, dout, r, cls, cplx)
